@@ -243,3 +243,22 @@ Example concat_repaired_drops_checked_operand :
   | _ => False
   end.
 Proof. vm_compute. exact I. Qed.
+
+(* ---- attributes given by reference (function bodies): as read the node is folded as if the attribute were absent,
+   repaired (fix "constant folding keeps nodes with reference attributes") it is kept *)
+Definition ref_node : node := Node "" "Neg" [Some "c1"] ["y"] [("k", ARef "a")] [].
+Example reference_attribute_as_read_folded :
+  match decide_variant Z z_ref (fun _ => DT_BOOL) (fun _ => []) (fun z => Some [z]) (fun _ => true) (pe_none Z) ex_cfg false false ex_state ref_node with
+  | DFoldInit _ _ "y" v => v = (-2)%Z
+  | _ => False
+  end.
+Proof. vm_compute. reflexivity. Qed.
+Example reference_attribute_repaired_kept :
+  match decide_variant Z z_ref (fun _ => DT_BOOL) (fun _ => []) (fun z => Some [z]) (fun _ => true) (pe_none Z) ex_cfg true false ex_state ref_node with
+  | DKeep _ RRefAttr _ => True
+  | _ => False
+  end.
+Proof. vm_compute. exact I. Qed.
+Lemma decide_variant_keeps_reference_attributes : forall V ref_eval v_dtype v_dims v_ints v_tensor pe cfg isf (st : state V) n,
+  has_ref_attr n = true -> decide_variant V ref_eval v_dtype v_dims v_ints v_tensor pe cfg true isf st n = DKeep V RRefAttr st.
+Proof. intros. unfold decide_variant. rewrite H. reflexivity. Qed.
